@@ -147,6 +147,8 @@ class Generator(SchemaVisitor[Any]):
             if schema.props.max_len is not Nil:
                 max_length = schema.props.max_len
                 is_length_specified = True
+            else:
+                max_length = max(max_length, min_length)
             length = self._random.random_int(min_length, max_length)
 
         if schema.props.type is not Nil:
